@@ -39,6 +39,8 @@ func genScenarios(r *rng) []*scenario {
 			}
 		case "gate":
 			out = append(out, gateScenarios(r, *pubGate)...)
+		case "gettypes":
+			out = append(out, genGetTypes(r)...)
 		case "get":
 			for _, kind := range []string{"inbox", "outbox", "handler"} {
 				for i := 0; i < *pubN; i++ {
